@@ -13,6 +13,8 @@ import sys
 
 FIXES = {  # subject prefix -> properties whose check must fire when the fix is reverted
     "fix: config.set records": ["C17"],
+    "fix: squashing two assigns": ["C43"],
+    "fix: order() assigns a priority": ["C06"],
     "fix: reshape_blockwise": ["C13"],
     "fix: imread": ["C13"],
     "fix: dict and set tokens": ["C12"],
